@@ -258,12 +258,17 @@ func (a c10At) async() bool {
 // c10Down lists the instructions satisfying match in entry and in every in-package function reachable
 // from it through static calls (helpers, directly called closures).
 func c10Down(entry *ssa.Function, match func(ssa.Instruction) bool) []c10At {
+	return c10DownCh(entry, func(in ssa.Instruction, _ c10Chain) bool { return match(in) })
+}
+
+// c10DownCh is c10Down with a matcher that also sees the call chain of the instruction.
+func c10DownCh(entry *ssa.Function, match func(ssa.Instruction, c10Chain) bool) []c10At {
 	var out []c10At
 	onStack := map[*ssa.Function]bool{entry: true}
 	var walk func(fn *ssa.Function, ch c10Chain)
 	walk = func(fn *ssa.Function, ch c10Chain) {
 		for _, in := range an.Instrs(fn, false) {
-			if match(in) {
+			if match(in, ch) {
 				out = append(out, c10At{in, ch})
 			}
 			call, ok := in.(ssa.CallInstruction)
@@ -683,6 +688,9 @@ func (o *c10Origin) set(v ssa.Value, ch c10Chain) (ok bool, unsure bool, why str
 			return true, false, "" // the nil set has no entries
 		}
 	}
+	if handled, ok, u, why := o.requestField(v, false); handled {
+		return ok, u, why
+	}
 	if _, _, fromField := an.FieldOf(v); fromField {
 		return false, false, "set is read from component state, not built for this request"
 	}
@@ -707,7 +715,7 @@ func (o *c10Origin) escapes(self ssa.Value, refs *[]ssa.Instruction, ch c10Chain
 		case *ssa.Lookup, *ssa.Range, *ssa.Phi, *ssa.DebugRef, *ssa.Return, *ssa.MakeInterface, *ssa.ChangeType:
 		case *ssa.Store:
 			if r.Val == self {
-				if _, isAl := r.Addr.(*ssa.Alloc); !isAl {
+				if _, isAl := r.Addr.(*ssa.Alloc); !isAl && !o.storedInRequestField(r) {
 					return false, true, "set is stored outside the function"
 				}
 			}
@@ -816,6 +824,9 @@ func (o *c10Origin) mapOfSets(m ssa.Value, ch c10Chain) (bool, bool, string) {
 			}
 		}
 	}
+	if handled, ok, u, why := o.requestField(m, true); handled {
+		return ok, u, why
+	}
 	if _, _, fromField := an.FieldOf(m); fromField {
 		return false, false, "set is taken from a map held in component state, not built for this request"
 	}
@@ -838,7 +849,7 @@ func (o *c10Origin) mapUses(self ssa.Value, refs *[]ssa.Instruction, ch c10Chain
 		case *ssa.Lookup, *ssa.Range, *ssa.DebugRef, *ssa.Phi, *ssa.Return:
 		case *ssa.Store:
 			if r.Val == self {
-				if _, isAl := r.Addr.(*ssa.Alloc); !isAl {
+				if _, isAl := r.Addr.(*ssa.Alloc); !isAl && !o.storedInRequestField(r) {
 					return false, true, "map of sets is stored outside the function"
 				}
 			}
@@ -939,6 +950,8 @@ func (v *c10VapiCtx) guardedInsert(site c10At) c10Verdict {
 		if good {
 			continue
 		}
+		c10Debug("H1 %s: key=%s val=%s trail=%v", an.FuncName(top), keyT, valT, st.trail)
+		c10DebugState(st)
 		if len(c10AnyFacts(st, c10VerifyPS)) == 0 && len(site.ch) == 0 && v.verifiedBeforeHandOver(w, st, mu, keyT, valT) {
 			continue
 		}
@@ -1149,6 +1162,8 @@ func c10H2(c *rt.Ctx) {
 				a.unsure = true
 			default:
 				a.bad = true
+				c10Debug("H2 bad return state trail=%v", st.trail)
+				c10DebugState(st)
 			}
 		}
 		for _, r := range order {
@@ -1367,14 +1382,15 @@ func c10H3(c *rt.Ctx) {
 		call, ok := in.(ssa.CallInstruction)
 		return ok && an.FieldCall(subsKey)(call.Common())
 	}
-	sinks := c10Down(fn, isSubs)
+	isSubsCh := func(in ssa.Instruction, ch c10Chain) bool { return isSubs(in) || c10FieldCallAt(subsKey, in, ch) }
+	sinks := c10DownCh(fn, isSubsCh)
 	if len(sinks) == 0 {
 		c.Bail("no call through ParSigEx.subs in (or below) handle")
 	}
 	// every other entry point of the package that reaches the subscribers is held to the same standard
 	for _, e := range c10Entries(c.SSAPkg("core/parsigex")) {
 		if e != fn {
-			sinks = append(sinks, c10Down(e, isSubs)...)
+			sinks = append(sinks, c10DownCh(e, isSubsCh)...)
 		}
 	}
 	sums := c10NewSums()
@@ -1489,7 +1505,7 @@ func c10H4(c *rt.Ctx) {
 	var cl *ssa.Function
 	for _, r := range an.Returns(outer) {
 		if len(r.Results) > 0 {
-			if m, ok := an.Resolve(r.Results[0]).(*ssa.MakeClosure); ok {
+			if m, ok := c10ResolveClosure(r.Results[0]); ok {
 				if cl != nil && cl != m.Fn.(*ssa.Function) {
 					c.Bail("NewEth2Verifier returns more than one function literal")
 				}
@@ -1539,6 +1555,7 @@ func c10H4(c *rt.Ctx) {
 			c.Bail("verification in the NewEth2Verifier literal: paths not enumerable")
 		}
 		share, pkOK, idxOK, data := c10Verdict{ok: true}, true, true, true
+		unfollowed := false
 		for _, st := range states {
 			cx := c10Cx{w: w, ch: site.ch, st: st}
 			t3 := cx.term(args[3])
@@ -1550,10 +1567,16 @@ func c10H4(c *rt.Ctx) {
 				}
 			}
 			switch {
+			case (inner == nil || outerLk == nil) && (c10LeafUnsure(t3, "core/parsigex.") || t3.op == "phi"):
+				// the share is produced by a helper with several outcomes (or a variable) the engine does not
+				// look through: neither its provenance nor the rejection of unknown keys can be read off
+				share = c10Verdict{unsure: true, why: "public share is produced in a way that is not followed (" + t3.op + ")"}
+				unfollowed = true
 			case inner == nil || outerLk == nil:
 				share = c10Verdict{why: "public share is not pubSharesByKey[pubkey][data.ShareIdx]"}
 			case outerLk.args[0].s != tableT.s:
-				share = c10Verdict{why: "shares are not looked up in the pubSharesByKey table given to NewEth2Verifier"}
+				c10Debug("H4 table: got %s want %s", outerLk.args[0], tableT)
+				share = c10Verdict{why: "shares are not looked up in the pubSharesByKey table given to NewEth2Verifier", unsure: c10DiffUnsure(outerLk.args[0], tableT, "core/parsigex.")}
 			case outerLk.args[1].s != pkT.s:
 				share = c10Verdict{why: "shares are not looked up under the pubkey the signature is claimed for"}
 			case inner.args[1].s != wantIdx.s:
@@ -1578,8 +1601,8 @@ func c10H4(c *rt.Ctx) {
 			}
 		}
 		share.report(c, "NewEth2Verifier pubshare=pubSharesByKey[pubkey][data.ShareIdx]", site.in.Pos())
-		c.Check("NewEth2Verifier unknown pubkey rejected", site.in.Pos(), pkOK, "a missing pubkey entry does not stop the verification (zero share would be used)")
-		c.Check("NewEth2Verifier unknown share index rejected", site.in.Pos(), idxOK, "a missing share index does not stop the verification (zero share would be used)")
+		c10Verdict{ok: pkOK, unsure: unfollowed, why: "a missing pubkey entry does not stop the verification (zero share would be used)"}.report(c, "NewEth2Verifier unknown pubkey rejected", site.in.Pos())
+		c10Verdict{ok: idxOK, unsure: unfollowed, why: "a missing share index does not stop the verification (zero share would be used)"}.report(c, "NewEth2Verifier unknown share index rejected", site.in.Pos())
 		c.Check("NewEth2Verifier data=data.SignedData", site.in.Pos(), data, "the object verified is not the SignedData of the received partial signature")
 	}
 	w := &c10W{fn: cl, tracked: c10Named(c10VerifyE2), sums: sums}
@@ -1603,6 +1626,30 @@ func c10H4(c *rt.Ctx) {
 	for _, r := range order {
 		bad[r].report(c, "NewEth2Verifier nil only via VerifyEth2SignedData", posOf(r))
 	}
+}
+
+// c10ResolveClosure: v is a function literal or method value, possibly held in a single-assignment local.
+func c10ResolveClosure(v ssa.Value) (*ssa.MakeClosure, bool) {
+	for i := 0; i < 4; i++ {
+		v = an.Resolve(v)
+		switch x := v.(type) {
+		case *ssa.MakeClosure:
+			return x, true
+		case *ssa.UnOp:
+			al, ok := x.X.(*ssa.Alloc)
+			if !ok || x.Op != token.MUL {
+				return nil, false
+			}
+			s := c10WholeStore(al)
+			if s == nil {
+				return nil, false
+			}
+			v = s
+		default:
+			return nil, false
+		}
+	}
+	return nil, false
 }
 
 // c10LookupHasOk: the depth-th map lookup under value v (0 = the lookup producing v) is a comma-ok lookup.
@@ -1748,7 +1795,7 @@ func c10H5(c *rt.Ctx) {
 				}
 				for _, st := range states {
 					cx := c10Cx{w: w, ch: site.ch, st: st}
-					good, why := false, "a path reaches the subscriber fan-out without propDataMatchesDuty having succeeded"
+					good, why, unfollowed := false, "a path reaches the subscriber fan-out without propDataMatchesDuty having succeeded", false
 					for _, g := range c10SuccessFacts(st, matchName) {
 						if len(g.args) != len(match.Params) {
 							c.Bail("propDataMatchesDuty: unexpected arity")
@@ -1765,8 +1812,13 @@ func c10H5(c *rt.Ctx) {
 							continue
 						}
 						gw := &c10W{fn: gs.in.Parent(), ch: gs.ch, sums: sums}
-						if ok, w2 := c10FromOpts(c10Cx{w: gw, ch: gs.ch, st: c10NewState()}, gs.in.(ssa.CallInstruction).Common().Args[optsIdx], optsT, 0); !ok {
+						gcx := c10Cx{w: gw, ch: gs.ch, st: c10NewState()}
+						garg := gs.in.(ssa.CallInstruction).Common().Args[optsIdx]
+						if ok, w2 := c10FromOpts(gcx, garg, optsT, 0); !ok {
 							why = w2
+							if gt := gcx.term(garg); c10LeafUnsure(gt, c10Vapi+".") || gt.op == "dyn" || gt.op == "phi" {
+								unfollowed = true
+							}
 							continue
 						}
 						good = true
@@ -1783,6 +1835,12 @@ func c10H5(c *rt.Ctx) {
 							}
 							continue
 						}
+						if unfollowed {
+							if res.ok {
+								res = c10Verdict{unsure: true, why: why + " (it is produced by a function value that is not followed)"}
+							}
+							continue
+						}
 						res = c10Verdict{why: why}
 						break
 					}
@@ -1793,13 +1851,29 @@ func c10H5(c *rt.Ctx) {
 		// what is stored is built from the same submission
 		for _, site := range c10Down(fn, c10IsSetUpdate) {
 			mu := site.in.(*ssa.MapUpdate)
-			w := &c10W{fn: site.in.Parent(), ch: site.ch, sums: sums}
-			t := c10Cx{w: w, ch: site.ch, st: c10NewState()}.term(mu.Value)
-			if t.is("ext", "0") {
-				t = t.args[0]
+			res := c10Verdict{ok: true}
+			states, w, overflow := c10StatesAtSite(func(f *ssa.Function, ch c10Chain) *c10W {
+				return &c10W{fn: f, ch: ch, sums: sums}
+			}, site)
+			if overflow || len(states) == 0 || site.async() {
+				res = c10Verdict{unsure: true, why: "paths to the insertion not enumerable"}
 			}
-			ok := t.op == "call" && len(t.args) > 0 && c10RootedAt(t.args[0], optsT)
-			c.Check(hn+" stored value built from the compared submission", posOf(mu), ok, "the partial signature stored is not built from the opts that were compared with the agreed proposal")
+			for _, st := range states {
+				t := c10Cx{w: w, ch: site.ch, st: st}.term(mu.Value)
+				if t.is("ext", "0") {
+					t = t.args[0]
+				}
+				if t.op == "call" && len(t.args) > 0 && c10RootedAt(t.args[0], optsT) {
+					continue
+				}
+				// a value whose construction is not followed (variable written in a way the engine does not
+				// model, result of a function value) is undecided; a different construction is a violation
+				unsure := c10LeafUnsure(t, c10Vapi+".") || t.op == "phi" || t.op == "dyn" || t.op == "param"
+				if res.ok || res.unsure && !unsure {
+					res = c10Verdict{unsure: unsure, why: "the partial signature stored is not built from the opts that were compared with the agreed proposal"}
+				}
+			}
+			res.report(c, hn+" stored value built from the compared submission", posOf(mu))
 		}
 	}
 	// (b) propDataMatchesDuty returns nil only after the hash tree roots of the agreed proposal's payload and of the
@@ -1815,6 +1889,17 @@ func c10H5(c *rt.Ctx) {
 	probe := w.cx(c10NewState())
 	optsT, propT := probe.term(optsParam), probe.term(propParam)
 	consts := c10VersionConsts(c.SSAPkg(c10Vapi))
+	// the comparison is dispatched through function values (a table of per-version selectors, a list of
+	// checks run in a loop): which code runs for which version is not followed, so the absence of a
+	// comparison on a path is not evidence; what is positively compared wrongly still is
+	dispatch := c10Down(match, c10IsFuncValueCall)
+	absent := func(construct string, pos token.Pos, why string) {
+		if len(dispatch) > 0 {
+			c.Unsure(construct, pos, why+" (propDataMatchesDuty dispatches through function values in "+an.FuncName(dispatch[0].in.Parent())+": not followed)")
+			return
+		}
+		c.Bad(construct, pos, why)
+	}
 	side := func(t *c10T) (string, []string) {
 		root, fields := c10Path(t)
 		switch root.s {
@@ -1897,8 +1982,10 @@ func c10H5(c *rt.Ctx) {
 				c.Unsure("propDataMatchesDuty return without hash comparison", posOf(r), "hash tree roots are compared, but of values whose origin is not followed (version "+ver+")")
 				continue
 			}
-			rootsOK, rootsWhy, rootsPos = false, "nil is returned without the hash tree roots having been found equal", posOf(r)
-			c.Bad("propDataMatchesDuty return without hash comparison", posOf(r), "propDataMatchesDuty can return nil without comparing hash tree roots (version "+ver+")")
+			if len(dispatch) == 0 {
+				rootsOK, rootsWhy, rootsPos = false, "nil is returned without the hash tree roots having been found equal", posOf(r)
+			}
+			absent("propDataMatchesDuty return without hash comparison", posOf(r), "propDataMatchesDuty can return nil without comparing hash tree roots (version "+ver+")")
 			continue
 		}
 		for _, p := range pairs {
@@ -2024,11 +2111,36 @@ func c10H5(c *rt.Ctx) {
 	if len(want) == 0 {
 		c.Bail("no version switch found in core.VersionedSignedProposal.MessageRoot")
 	}
-	c.Check("propDataMatchesDuty version switch covers all proposal versions", match.Pos(), fmt.Sprint(got) == fmt.Sprint(want),
-		fmt.Sprintf("versions handled %v, versions of core.VersionedSignedProposal.MessageRoot %v", got, want))
-	for _, f := range []string{"Blinded", "Version"} {
-		c.Check("propDataMatchesDuty "+f+" equal", match.Pos(), header[f], "submission and agreed proposal are not required to have the same "+f)
+	if fmt.Sprint(got) == fmt.Sprint(want) {
+		c.Good("propDataMatchesDuty version switch covers all proposal versions", match.Pos(), "")
+	} else {
+		absent("propDataMatchesDuty version switch covers all proposal versions", match.Pos(),
+			fmt.Sprintf("versions handled %v, versions of core.VersionedSignedProposal.MessageRoot %v", got, want))
 	}
+	for _, f := range []string{"Blinded", "Version"} {
+		if header[f] {
+			c.Good("propDataMatchesDuty "+f+" equal", match.Pos(), "")
+		} else {
+			absent("propDataMatchesDuty "+f+" equal", match.Pos(), "submission and agreed proposal are not required to have the same "+f)
+		}
+	}
+}
+
+// c10IsFuncValueCall: a call of a function value whose target is neither statically known nor a function
+// literal held in a single-assignment local, and that is not a call through a struct field (the wired
+// dependencies of a component are called that way and are named by their field).
+func c10IsFuncValueCall(in ssa.Instruction) bool {
+	call, ok := in.(ssa.CallInstruction)
+	if !ok || call.Common().IsInvoke() || call.Common().StaticCallee() != nil {
+		return false
+	}
+	if _, isB := call.Common().Value.(*ssa.Builtin); isB {
+		return false
+	}
+	if c10ClosureVar(call.Common().Value) != nil {
+		return false
+	}
+	return !strings.HasPrefix(an.CalleeName(call.Common()), "field:")
 }
 
 func c10IndexOfParam(fn *ssa.Function, p *ssa.Parameter) int {
